@@ -33,7 +33,7 @@ WORLD_INFO = {'real': ['AsyncioConnection.push/_push_msg/handle_write/handle_rea
 ASSUMPTIONS = ['an SSLWantWrite raised by a send means "nothing was written, retry later"; the unchanged driver treats it as fatal (defunct), '
                'which the rules allow: the stream then only has to be a clean prefix',
                'Twisted\'s own guarantee (callFromThread is FIFO, transport.write is atomic) is assumed, not checked']
-REQUIRED_PROBES = ['multi_chunk_message', 'two_threads_pushed', 'push_from_loop_thread', 'partial_write', 'eagain', 'preempted_in_push',
+REQUIRED_PROBES = ['multi_chunk_message', 'two_threads_pushed', 'push_from_loop_thread', 'burst_from_loop_thread', 'partial_write', 'eagain', 'preempted_in_push',
                    'asyncio_reactor', 'twisted_reactor', 'reset_mid_stream']
 
 
@@ -58,7 +58,7 @@ def gen_plan(rng, tier):
         fault = {'kind': 'rst', 'at': rng.choice([0.0005, 0.003, 0.02])}
     elif r < 0.3 and reactor == 'asyncio':
         fault = {'kind': 'ssl_want_write', 'p': rng.choice([0.02, 0.1])}
-    return {'reactor': reactor, 'out_buffer_size': b, 'nthreads': nthreads, 'loop_pushes': loop_pushes, 'messages': msgs,
+    return {'reactor': reactor, 'out_buffer_size': b, 'nthreads': nthreads, 'loop_pushes': loop_pushes, 'loop_burst': rng.choice([1, 2, 3, 4]), 'messages': msgs,
             'sndbuf': rng.choice([1 << 20, 1 << 20, 100, 300] if b == 64 else [1 << 20, 1 << 20, 5000, 20000]), 'partial_write_p': rng.choice([0, 0.3, 0.8]), 'fault': fault,
             'lat': [0.0002, rng.choice([0.001, 0.01])],
             'strategy': gen_strategy(rng), 'line_p': rng.choice([0, 0.02, 0.1, 0.3]), 'points': rng.choice([0, 2, 6])}
@@ -119,15 +119,21 @@ def run_plan(plan, seed, choices=None):
             if not todo:
                 st['loop_done'] = True
                 return
-            k, m = todo.pop(0)
-            st['pushed'].setdefault(t, []).append(k)
-            sim.probe('push_from_loop_thread')
-            try:
-                conn.push(make(t, k, m['size']))
-            except Exception as e:
-                st.setdefault('push_errors', []).append(repr(e))
-                st['loop_done'] = True
-                return
+            # one callback on the loop thread may push several messages back to back (a response handler that sends follow-ups)
+            for _ in range(plan.get('loop_burst', 1)):
+                if not todo:
+                    break
+                k, m = todo.pop(0)
+                st['pushed'].setdefault(t, []).append(k)
+                sim.probe('push_from_loop_thread')
+                try:
+                    conn.push(make(t, k, m['size']))
+                except Exception as e:
+                    st.setdefault('push_errors', []).append(repr(e))
+                    st['loop_done'] = True
+                    return
+            if plan.get('loop_burst', 1) > 1:
+                sim.probe('burst_from_loop_thread')
             w.loop_call(one)
         w.loop_call(one)
 
